@@ -37,6 +37,13 @@ def _mods():
     return ZConfig
 
 
+# environment variables the line shapes refer to: set to nothing, set to a word, not set
+import os as _os
+_os.environ["ZCV_EMPTY"] = ""
+_os.environ["ZCV_WORD"] = "w"
+_os.environ.pop("ZCV_UNSET", None)
+ENV = {"ZCV_EMPTY": "", "ZCV_WORD": "w"}
+
 # ---------------------------------------------------------------- reference
 
 
@@ -70,7 +77,7 @@ def expected_schemaless(text):
             v = ev[2] if kind == "key" else ev[1]
             if v:
                 try:
-                    v = model.ref_subst(v, {}, {})
+                    v = model.ref_subst(v, {}, ENV)
                 except model.SubstMissing:
                     return ("reject",)
                 except (model.SubstSyntax, model.Unspecified):
@@ -133,12 +140,12 @@ def _walk(events, url, balanced=True):
             elif kind == "key":
                 v = ev[2]
                 if v:
-                    v = model.ref_subst(v, defs, {})
+                    v = model.ref_subst(v, defs, ENV)
                 out.append(["value", ev[1], v, lineno])
             elif kind == "import":
-                out.append(["import", model.ref_subst(ev[1], defs, {})])
+                out.append(["import", model.ref_subst(ev[1], defs, ENV)])
             elif kind == "include":
-                arg = model.ref_subst(ev[1], defs, {})
+                arg = model.ref_subst(ev[1], defs, ENV)
                 if not _simple_name(arg):
                     return ("unspec", "include-arg")
                 out.append(["include", base + arg])
@@ -155,7 +162,7 @@ def _walk(events, url, balanced=True):
                     return ("reject",)
                 if name in defs:
                     return ("unspec", "redefinition")
-                defs[name] = model.ref_subst(raw, defs, {})
+                defs[name] = model.ref_subst(raw, defs, ENV)
         except model.SubstMissing:
             return ("reject",)
         except model.SubstSyntax:
